@@ -175,7 +175,7 @@ func (vc *VC) applyContract(x *ssa.Call, key string, fc *FuncContract, callee *s
 	}
 	if eff.allocs {
 		na := vc.fresh("alloc", "Int")
-		vc.global(sx("<=", st.alloc, na))
+		vc.local(sx("<=", st.alloc, na))
 		st.alloc = na
 	}
 	var comps []string
@@ -190,6 +190,9 @@ func (vc *VC) applyContract(x *ssa.Call, key string, fc *FuncContract, callee *s
 		nc := vc.fresh(strings.Trim(c, "|"), vc.compSort(c))
 		st.heaps[c] = nc
 		vc.touched[c] = true
+		if cl := closureFact(nc, vc.compSort(c), st.alloc); cl != "" {
+			vc.local(cl)
+		}
 		if fc == nil || fc.Modifies == nil {
 			if fc == nil && callee != nil {
 				// uncontracted in-repo callee: nothing known
@@ -413,7 +416,7 @@ func (vc *VC) execAppend(x *ssa.Call, s, t Val, st *State) Val {
 	newArr := vc.fresh("append_arr", "Addr")
 	vc.define(newArr, vc.newRoot(st))
 	newCap := vc.fresh("append_cap", "Int")
-	vc.global(sx("<=", sx("+", n, m), newCap))
+	vc.local(sx("<=", sx("+", n, m), newCap))
 	r := vc.fresh(x.Name(), "Slice")
 	vc.define(r, ite(inplace,
 		sx("mk-slice", sx("sarr", s.S), sx("soff", s.S), sx("+", n, m), sx("scap", s.S)),
@@ -433,11 +436,16 @@ func (vc *VC) execAppend(x *ssa.Call, s, t Val, st *State) Val {
 		dIn := applyPath(sx("idx", s.S, "j!"), lf.path)
 		dNew := applyPath(sx("elem", newArr, "j!"), lf.path)
 		rng := and(sx("<=", n, "j!"), sx("<", "j!", sx("+", n, m)))
-		vc.global(fmt.Sprintf("(forall ((j! Int)) (! (=> (and %s %s) (= (select %s %s) %s)) :pattern ((select %s %s))))", inplace, rng, nc, dIn, srcT, nc, dIn))
-		vc.global(fmt.Sprintf("(forall ((j! Int)) (! (=> (and (not %s) %s) (= (select %s %s) %s)) :pattern ((select %s %s))))", inplace, rng, nc, dNew, srcT, nc, dNew))
+		vc.local(fmt.Sprintf("(forall ((j! Int)) (! (=> (and %s %s) (= (select %s %s) %s)) :pattern ((select %s %s))))", inplace, rng, nc, dIn, srcT, nc, dIn))
+		vc.local(fmt.Sprintf("(forall ((j! Int)) (! (=> (and (not %s) %s) (= (select %s %s) %s)) :pattern ((select %s %s))))", inplace, rng, nc, dNew, srcT, nc, dNew))
+		// summary facts phrased over the result slice (consequences of the
+		// case-wise facts; they spare the solver the case split)
+		rIdx := applyPath(sx("idx", r, "j!"), lf.path)
+		vc.local(fmt.Sprintf("(forall ((j! Int)) (! (=> (and (<= 0 j!) (< j! %s)) (= (select %s %s) (select %s %s))) :pattern ((select %s %s))))", n, nc, rIdx, old, applyPath(sx("idx", s.S, "j!"), lf.path), nc, rIdx))
+		vc.local(fmt.Sprintf("(forall ((j! Int)) (! (=> %s (= (select %s %s) %s)) :pattern ((select %s %s))))", rng, nc, rIdx, srcT, nc, rIdx))
 		// copied prefix when reallocated
 		srcS := sx("select", old, applyPath(sx("idx", s.S, "j!"), lf.path))
-		vc.global(fmt.Sprintf("(forall ((j! Int)) (! (=> (and (not %s) (<= 0 j!) (< j! %s)) (= (select %s %s) %s)) :pattern ((select %s %s))))", inplace, n, nc, dNew, srcS, nc, dNew))
+		vc.local(fmt.Sprintf("(forall ((j! Int)) (! (=> (and (not %s) (<= 0 j!) (< j! %s)) (= (select %s %s) %s)) :pattern ((select %s %s))))", inplace, n, nc, dNew, srcS, nc, dNew))
 		// frame: everything else unchanged. In place: only the m slots after
 		// the old length change; reallocated: only the new array changes.
 		vc.needUnpath(len(lf.path))
@@ -445,7 +453,7 @@ func (vc *VC) execAppend(x *ssa.Call, s, t Val, st *State) Val {
 		changed := fmt.Sprintf("(ite %s (and ((_ is elem) %s) (= (epar %s) (sarr %s)) (<= (+ (soff %s) %s) (eidx %s)) (< (eidx %s) (+ (soff %s) %s %s)) (= a! %s)) (= (rootOf a!) (rootOf %s)))",
 			inplace, u, u, s.S, s.S, n, u, u, s.S, n, m,
 			applyPath(sx("elem", sx("sarr", s.S), sx("eidx", u)), lf.path), newArr)
-		vc.global(fmt.Sprintf("(forall ((a! Addr)) (! (=> (not %s) (= (select %s a!) (select %s a!))) :pattern ((select %s a!))))", changed, nc, old, nc))
+		vc.local(fmt.Sprintf("(forall ((a! Addr)) (! (=> (not %s) (= (select %s a!) (select %s a!))) :pattern ((select %s a!))))", changed, nc, old, nc))
 	}
 	return Val{K: KSlice, T: x.Type(), S: r}
 }
@@ -483,12 +491,12 @@ func (vc *VC) execCopy(x *ssa.Call, dst, src Val, st *State) Val {
 		} else {
 			sk = sx("select", old, applyPath(sx("idx", src.S, "k!"), lf.path))
 		}
-		vc.global(fmt.Sprintf("(forall ((k! Int)) (! (=> (and (<= 0 k!) (< k! %s)) (= (select %s %s) %s)) :pattern ((select %s %s))))", n, nc, dk, sk, nc, dk))
+		vc.local(fmt.Sprintf("(forall ((k! Int)) (! (=> (and (<= 0 k!) (< k! %s)) (= (select %s %s) %s)) :pattern ((select %s %s))))", n, nc, dk, sk, nc, dk))
 		vc.needUnpath(len(lf.path))
 		u := fmt.Sprintf("(unpath%d a!)", len(lf.path))
 		changed := fmt.Sprintf("(and ((_ is elem) %s) (= (epar %s) (sarr %s)) (<= (soff %s) (eidx %s)) (< (eidx %s) (+ (soff %s) %s)) (= a! %s))", u, u, dst.S, dst.S, u, u, dst.S, n,
 			applyPath(sx("elem", sx("sarr", dst.S), sx("eidx", u)), lf.path))
-		vc.global(fmt.Sprintf("(forall ((a! Addr)) (! (=> (not %s) (= (select %s a!) (select %s a!))) :pattern ((select %s a!))))", changed, nc, old, nc))
+		vc.local(fmt.Sprintf("(forall ((a! Addr)) (! (=> (not %s) (= (select %s a!) (select %s a!))) :pattern ((select %s a!))))", changed, nc, old, nc))
 	}
 	return Val{K: KInt, T: x.Type(), S: n}
 }
